@@ -12,40 +12,54 @@
 (* results[c] is exactly <<(c,1), ..., (c,Steps)>> - whatever the          *)
 (* interleaving and completion order; KeyedByChain: the collected          *)
 (* dictionary maps every chain number to that chain's result.              *)
+(* Before any chain starts the loader may draw from the parent generator   *)
+(* (PreDraws draws: the permutation test of --assign-loss-prob).  A single *)
+(* chain (K = 1) continues on the parent stream after those draws, as      *)
+(* run() passes the parent generator itself; spawned children (K > 1) do   *)
+(* not depend on how far the parent stream was consumed.                   *)
 (* Deviations: SharedStream (all chains draw from the parent generator),   *)
-(* StreamPerWorker (streams assigned per worker slot, W < K workers).      *)
+(* StreamPerWorker (streams assigned per worker slot, W < K workers),      *)
+(* LazyLoad (the loader's draws happen concurrently with the chains).      *)
 (***************************************************************************)
 EXTENDS Naturals, Sequences, FiniteSets, TLC
 CONSTANTS K,             \* chains 0..K-1
           Steps,         \* draws per chain
           W,             \* worker slots (processes that can run at once)
-          SharedStream, StreamPerWorker
+          PreDraws,      \* draws the loader takes from the parent generator before the chains exist
+          SharedStream, StreamPerWorker, LazyLoad
 Chain == 0..(K - 1)
+Main == K + 100        \* identifier of the parent stream
 VARIABLES pos,       \* per stream: next position
           trace,     \* per chain: draws consumed so far
           running,   \* set of chains currently on a worker
           done,      \* sequence of chain numbers in completion order
-          results    \* function chain -> trace, filled at completion
-vars == <<pos, trace, running, done, results>>
-StreamOf(c) == IF SharedStream THEN 0 ELSE IF StreamPerWorker THEN c % W ELSE c
-Streams == {StreamOf(c) : c \in Chain}
+          results,   \* function chain -> trace, filled at completion
+          loaded     \* number of loader draws taken so far
+vars == <<pos, trace, running, done, results, loaded>>
+StreamOf(c) == IF SharedStream \/ K = 1 THEN Main ELSE IF StreamPerWorker THEN c % W ELSE c
+Streams == {StreamOf(c) : c \in Chain} \cup {Main}
 Init == /\ pos = [s \in Streams |-> 1] /\ trace = [c \in Chain |-> <<>>]
-        /\ running = {} /\ done = <<>> /\ results = << >>
+        /\ running = {} /\ done = <<>> /\ results = << >> /\ loaded = 0
+\* load_data: the loader's draws come first (unless LazyLoad)
+Load == /\ loaded < PreDraws
+        /\ pos' = [pos EXCEPT ![Main] = @ + 1] /\ loaded' = loaded + 1
+        /\ UNCHANGED <<trace, running, done, results>>
+Loaded == LazyLoad \/ loaded = PreDraws
 Finished == {done[j] : j \in 1..Len(done)}
-Start(c) == /\ c \notin running /\ c \notin Finished /\ trace[c] = <<>> /\ Cardinality(running) < W
-            /\ running' = running \cup {c} /\ UNCHANGED <<pos, trace, done, results>>
+Start(c) == /\ Loaded /\ c \notin running /\ c \notin Finished /\ trace[c] = <<>> /\ Cardinality(running) < W
+            /\ running' = running \cup {c} /\ UNCHANGED <<pos, trace, done, results, loaded>>
 Step(c) == /\ c \in running /\ Len(trace[c]) < Steps
            /\ LET s == StreamOf(c) IN
                 /\ trace' = [trace EXCEPT ![c] = Append(@, <<s, pos[s]>>)]
                 /\ pos' = [pos EXCEPT ![s] = @ + 1]
-           /\ UNCHANGED <<running, done, results>>
+           /\ UNCHANGED <<running, done, results, loaded>>
 Finish(c) == /\ c \in running /\ Len(trace[c]) = Steps
              /\ running' = running \ {c} /\ done' = Append(done, c)
              /\ results' = (c :> trace[c]) @@ results
-             /\ UNCHANGED <<pos, trace>>
-Next == \E c \in Chain : Start(c) \/ Step(c) \/ Finish(c)
-AllDone == Len(done) = K
-Expected(c) == [j \in 1..Steps |-> <<c, j>>]
+             /\ UNCHANGED <<pos, trace, loaded>>
+Next == Load \/ \E c \in Chain : Start(c) \/ Step(c) \/ Finish(c)
+AllDone == Len(done) = K /\ loaded = PreDraws
+Expected(c) == IF K = 1 THEN [j \in 1..Steps |-> <<Main, PreDraws + j>>] ELSE [j \in 1..Steps |-> <<c, j>>]
 ScheduleIndependence == AllDone => \A c \in Chain : results[c] = Expected(c)
 KeyedByChain == \A c \in DOMAIN results : c \in Chain /\ Len(results[c]) = Steps
 NoSharedDraw == \A c1, c2 \in Chain : c1 # c2 => \A i \in 1..Len(trace[c1]), j \in 1..Len(trace[c2]) : trace[c1][i] # trace[c2][j]
